@@ -241,6 +241,11 @@ def hd0 (l : Bytes) : Nat := l.headD 0
 
 def pad9 (p : List Value) : List Value := (p ++ List.replicate 9 (Value.str [])).take 9
 
+/-- `%i` on one parameter: only an `int` is incremented (terminfo.go:400-405) -/
+def incParam : Value → Value
+  | .int n => .int (wrap64 (n + 1))
+  | y => y
+
 /-- binary operator step: pops b then a (terminfo.go:498-567) -/
 def binop (f : Int → Int → Value) (s : St) : St :=
   let (b, k1) := popInt s.stk
@@ -249,27 +254,28 @@ def binop (f : Int → Int → Value) (s : St) : St :=
 
 def put (s : St) (bs : Bytes) : St := { s with out := s.out ++ bs }
 
+/-- the `switch ch` that ends the printf path (terminfo.go:441-451) -/
+def fmtEffect (f : Fmt) (verb : Nat) (s : St) : St :=
+  if verb == 100 then let (a, k) := popInt s.stk; put { s with stk := k } (fmtInteger f a 10 false)
+  else if verb == 120 then let (a, k) := popInt s.stk; put { s with stk := k } (fmtInteger f a 16 false)
+  else if verb == 88 then let (a, k) := popInt s.stk; put { s with stk := k } (fmtInteger f a 16 true)
+  else if verb == 111 then let (a, k) := popInt s.stk; put { s with stk := k } (fmtInteger f a 8 false)
+  else if verb == 115 then let (a, k) := popStr s.stk; put { s with stk := k } (fmtStr f a)
+  else if verb == 99 then let (a, k) := popInt s.stk; put { s with stk := k } (fmtChar f a)
+  else s
+
+/-- the characters the two loops of the printf path look at: after an optional `:` (terminfo.go:429-431) -/
+def fmtChars (c : Nat) (rest : Bytes) : Bytes := if c == 58 then hd0 rest :: rest.drop 1 else c :: rest
+
 /-- the printf path (terminfo.go:423-451): `c` is the character after `%`, `rest` what follows it.
 Returns the remaining input and the new state. -/
 def stepFmt (c : Nat) (rest : Bytes) (s : St) : Bytes × St :=
-  -- `if ch == ':' { ch, _ = pb.NextCh() }`
-  let (c, rest) := if c == 58 then (hd0 rest, rest.drop 1) else (c, rest)
-  -- the sequence of characters the two loops look at is c :: rest
-  let all := c :: rest
+  let all := fmtChars c rest
   let flags := all.takeWhile isFlag
   let r1 := all.dropWhile isFlag
   let nums := r1.takeWhile isNum
   let r2 := r1.dropWhile isNum
-  let verb := hd0 r2
-  let rest' := r2.drop 1
-  let f := parseFmt flags nums
-  if verb == 100 then let (a, k) := popInt s.stk; (rest', put { s with stk := k } (fmtInteger f a 10 false))
-  else if verb == 120 then let (a, k) := popInt s.stk; (rest', put { s with stk := k } (fmtInteger f a 16 false))
-  else if verb == 88 then let (a, k) := popInt s.stk; (rest', put { s with stk := k } (fmtInteger f a 16 true))
-  else if verb == 111 then let (a, k) := popInt s.stk; (rest', put { s with stk := k } (fmtInteger f a 8 false))
-  else if verb == 115 then let (a, k) := popStr s.stk; (rest', put { s with stk := k } (fmtStr f a))
-  else if verb == 99 then let (a, k) := popInt s.stk; (rest', put { s with stk := k } (fmtChar f a))
-  else (rest', s)
+  (r2.drop 1, fmtEffect (parseFmt flags nums) (hd0 r2) s)
 
 /-- `%{` … (terminfo.go:483-492): digits accumulated with 64-bit wrap, then one more character is consumed -/
 def readInt : Bytes → Int → Int × Bytes
@@ -291,8 +297,7 @@ def repaired : Variant := { nesting := true, logAO := true, flagNoColon := true 
 def execOp (v : Variant) (c : Nat) (rest : Bytes) (s : St) : Bytes × St × Skip :=
   if c == 37 then (rest, put s [37], .emit)                                        -- %%
   else if c == 105 then                                                            -- %i
-    let inc : Value → Value := fun x => match x with | .int n => .int (wrap64 (n + 1)) | y => y
-    (rest, { s with params := (s.params.modify 0 inc).modify 1 inc }, .emit)
+    (rest, { s with params := (s.params.modify 0 incParam).modify 1 incParam }, .emit)
   else if c == 115 then let (a, k) := popStr s.stk; (rest, put { s with stk := k } a, .emit)        -- %s
   else if c == 99 then let (a, k) := popInt s.stk; (rest, put { s with stk := k } [(a % 256).toNat], .emit)  -- %c
   else if c == 100 then let (a, k) := popInt s.stk; (rest, put { s with stk := k } (itoa a), .emit)  -- %d
